@@ -25,6 +25,8 @@ def _steps(rng, spec, n_steps):
             L = max(0, m + rng.choice([-1, 0, 0, 1]))
         else:
             L = rng.choice(LIMITS)
+        if L >= 150 and len(w) > 2 and not rpda.closure_sizes(spec, '', 300)[1]:
+            w = w[:2]       # unbounded closure and a large limit: the sets grow by ~2*limit configurations per letter
         steps.append([L, w])
         if rng.random() < 0.2:
             # object-lifetime history: the same PDA object is edited in place between two queries
@@ -75,7 +77,7 @@ def run_case(case, env):
             dig.append(['edit', hx(s0)])
             continue
         set_knobs(limit=L)
-        st, val, ticks = call(env, pa.pda_accepts_word, P, w, budget=100_000 + 2500 * (max(L, 1000) + 30) * (len(w) + 1))
+        st, val, ticks = call(env, pa.pda_accepts_word, P, w, budget=300_000 + 6000 * (max(L, 1000) + 30) * (len(w) + 1) ** 2)
         out['evals'] += 1
         out['ticks'] += ticks
         site = 'pda_accepts_word'
